@@ -46,6 +46,11 @@ def one(args):
         out.append("%s exit=%d %s" % (chk, cp.returncode, keys[0][:170] if keys else ""))
     shutil.rmtree(ev, ignore_errors=True)
     shutil.rmtree(scratch, ignore_errors=True)
+    try:
+        with open(os.path.join(d, "detected.json"), "w") as f:
+            json.dump({"id": sid, "property": prop, "tier": tier, "caught": bool(fired), "checks": out}, f, indent=1)
+    except OSError:
+        pass
     return sid, prop, "CAUGHT" if fired else "MISSED", " | ".join(out)
 
 
